@@ -94,10 +94,34 @@ theorem pi_q_never_written {fp : FdlParams} (hfp : FpOk fp) {g g' : G} (hI : Inv
   cases op with
   | tx now hp => exact absurd (tx_keeps_images hfp hI h j).2 hne
   | reply a t =>
-    obtain ⟨index, i, p, p', ev, _, _, hc, _, _, hspec, rfl⟩ := reply_form hI h
-    have hi := (curSlot_spec hc).2.2.1
-    have hs := slot_of_set (q := p') hi (afterReply g.m index i p p' ev) rfl j
-    exact absurd (hs.2.1 (rx_images hspec).1) hne
+    rcases reply_cases hI h with ⟨index, i, p, p', ev, _, _, hc, _, _, hspec, rfl⟩ | ⟨_, _, _, _, _, _, _, _, rfl⟩
+    · have hi := (curSlot_spec hc).2.2.1
+      have hs := slot_of_set (q := p') hi (afterReply g.m index i p p' ev) rfl j
+      exact absurd (hs.2.1 (rx_images hspec).1) hne
+    · exact absurd rfl hne
+  | resetAddr slot a =>
+    simp only [gstep] at h
+    split at h
+    · cases h
+    · cases hw : g.m.resetAddress slot a with
+      | none => rw [hw] at h; cases h
+      | some m' =>
+        rw [hw] at h
+        simp only [Res3.ok.injEq] at h; subst h
+        unfold Master.resetAddress Master.peripheral? at hw
+        cases hs : g.m.slots.getD slot none with
+        | none => rw [hs] at hw; cases hw
+        | some p =>
+          rw [hs] at hw
+          simp only [Option.some.injEq] at hw; subst hw
+          have hj : g.m.slots[slot]? = some (some p) := by
+            rw [List.getD_eq_getElem?_getD] at hs
+            cases hh : g.m.slots[slot]? with
+            | none => rw [hh] at hs; cases hs
+            | some x => rw [hh] at hs; simp only [Option.getD_some] at hs; rw [hs]
+          have hss := slot_of_set (q := p.resetAddress a) hj
+            { g.m with slots := g.m.slots.set slot (some (p.resetAddress a)) } rfl j
+          exact absurd (hss.2.1 rfl) hne
   | timeout a =>
     simp only [gstep] at h
     split at h
@@ -170,21 +194,46 @@ theorem pi_i_changes_only {fp : FdlParams} (hfp : FpOk fp) {g g' : G} (hI : Inv 
   cases op with
   | tx now hp => exact absurd (tx_keeps_images hfp hI h j).1 hne
   | reply a t =>
-    obtain ⟨index, i, p, p', ev, ho, hcy, hc, hpa, hal, hspec, rfl⟩ := reply_form hI h
-    have hi := (curSlot_spec hc).2.2.1
-    have hs := slot_of_set (q := p') hi (afterReply g.m index i p p' ev) rfl j
-    obtain ⟨_, _, himg⟩ := rx_images hspec
-    rcases himg with hsame | ⟨hd, pdu, st, ss, rfl, hst, hdf, hfc, hok, h1, h2, hlen, hpi⟩
-    · exact absurd (hs.1 hsame) hne
-    · by_cases hji : j = i
-      · subst hji
-        have hal' := hal
-        simp only [replyAllowed, Bool.and_eq_true, beq_iff_eq] at hal'
-        refine ⟨a, hd, pdu, st, ss, index, p, rfl, ho, hcy, hc, hpa, hal'.1.1, hal'.1.2, hfc, hok, h1, h2, hlen, hst, hdf, ?_⟩
-        rw [(hs.2.2.2 rfl).1, hpi]
-      · exfalso; apply hne
-        unfold slotPiI
-        rw [getD_of_getElem?, getD_of_getElem?, hs.2.2.1 hji]
+    rcases reply_cases hI h with hdel | ⟨_, _, _, _, _, _, _, _, rfl⟩
+    · obtain ⟨index, i, p, p', ev, ho, hcy, hc, hpa, hal, hspec, rfl⟩ := hdel
+      have hi := (curSlot_spec hc).2.2.1
+      have hs := slot_of_set (q := p') hi (afterReply g.m index i p p' ev) rfl j
+      obtain ⟨_, _, himg⟩ := rx_images hspec
+      rcases himg with hsame | ⟨hd, pdu, st, ss, rfl, hst, hdf, hfc, hok, h1, h2, hlen, hpi⟩
+      · exact absurd (hs.1 hsame) hne
+      · by_cases hji : j = i
+        · subst hji
+          have hal' := hal
+          simp only [replyAllowed, Bool.and_eq_true, beq_iff_eq] at hal'
+          refine ⟨a, hd, pdu, st, ss, index, p, rfl, ho, hcy, hc, hpa, hal'.1.1, hal'.1.2, hfc, hok, h1, h2, hlen, hst, hdf, ?_⟩
+          rw [(hs.2.2.2 rfl).1, hpi]
+        · exfalso; apply hne
+          unfold slotPiI
+          rw [getD_of_getElem?, getD_of_getElem?, hs.2.2.1 hji]
+    · exact absurd rfl hne
+  | resetAddr slot a =>
+    simp only [gstep] at h
+    split at h
+    · cases h
+    · cases hw : g.m.resetAddress slot a with
+      | none => rw [hw] at h; cases h
+      | some m' =>
+        rw [hw] at h
+        simp only [Res3.ok.injEq] at h; subst h
+        unfold Master.resetAddress Master.peripheral? at hw
+        cases hs : g.m.slots.getD slot none with
+        | none => rw [hs] at hw; cases hw
+        | some p =>
+          rw [hs] at hw
+          simp only [Option.some.injEq] at hw; subst hw
+          have hj : g.m.slots[slot]? = some (some p) := by
+            rw [List.getD_eq_getElem?_getD] at hs
+            cases hh : g.m.slots[slot]? with
+            | none => rw [hh] at hs; cases hs
+            | some x => rw [hh] at hs; simp only [Option.getD_some] at hs; rw [hs]
+          have hss := slot_of_set (q := p.resetAddress a) hj
+            { g.m with slots := g.m.slots.set slot (some (p.resetAddress a)) } rfl j
+          exact absurd (hss.1 rfl) hne
   | timeout a =>
     simp only [gstep] at h
     split at h
@@ -239,18 +288,24 @@ theorem pi_i_changes_only {fp : FdlParams} (hfp : FpOk fp) {g g' : G} (hI : Inv 
           { g.m with slots := g.m.slots.set slot (some { p with diagNeeded := true }) } rfl j
         exact absurd (hss.1 rfl) hne
 
-/-- A `DataExchanged` event is reported if and only if an acceptable reply to the outstanding
+/-- (For a reply that is delivered — a stale one after `reset_address()` changes nothing.)
+A `DataExchanged` event is reported if and only if an acceptable reply to the outstanding
 Data_Exchange request arrived: a response without SAPs, status OK / DL / DH, of exactly the
 configured input length (the update of `pi_i`), or — for a peripheral without inputs — a short
 confirmation.  The event names the slot that was addressed. -/
 theorem event_iff {fp : FdlParams} {g g' : G} (hI : Inv fp g) {a : UInt8} {t : Telegram}
     (h : gstep fp g (.reply a t) = .ok g') :
+    -- a stale reply (`reset_address()` while the request was in flight, F14) is ignored altogether
+    (g'.m = g.m ∧ g'.o = .ignored ∧ g.tainted = true) ∨
     ∃ index i p, g.m.cycle = .dx index ∧ curSlot g.m.slots index = some (i, p) ∧ p.address = a ∧
       (g'.m.lastEvents.peripheral = some { index := i, address := a, ev := .dataExchanged } ↔
         ((p.state = .preDataExchange ∨ p.state = .dataExchange) ∧ p.diagInFlight = false ∧
           acceptable .dx p.piI.length t = true)) ∧
       (∀ he, g'.m.lastEvents.peripheral = some he → he.index = i ∧ he.address = a) := by
-  obtain ⟨index, i, p, p', ev, _, hcy, hc, hpa, _, hspec, rfl⟩ := reply_form hI h
+  rcases reply_cases hI h with hdel | ⟨_, _, _, _, _, _, _, ht, rfl⟩
+  case inr => exact Or.inl ⟨rfl, rfl, ht⟩
+  right
+  obtain ⟨index, i, p, p', ev, _, hcy, hc, hpa, _, hspec, rfl⟩ := hdel
   refine ⟨index, i, p, hcy, hc, hpa, ?_, ?_⟩
   · rw [← rx_event_iff hspec]
     simp only [afterReply]
@@ -268,9 +323,19 @@ exactly its payload in the input image of the addressed slot. -/
 theorem pi_i_equals_payload {fp : FdlParams} {g g' : G} (hI : Inv fp g) {a : UInt8} {hd : Header} {pdu : Bytes}
     (h : gstep fp g (.reply a (.data hd pdu)) = .ok g')
     {index i : Nat} {p : Peripheral} (hcy : g.m.cycle = .dx index) (hc : curSlot g.m.slots index = some (i, p))
+    (hadr : p.address = a)
     (hst : p.state = .preDataExchange ∨ p.state = .dataExchange) (hdf : p.diagInFlight = false)
     (hacc : acceptable .dx p.piI.length (.data hd pdu) = true) : slotPiI g'.m i = some pdu := by
-  obtain ⟨index', i', p0, p', ev, _, hcy', hc', _, _, hspec, rfl⟩ := reply_form hI h
+  rcases reply_cases hI h with hdel | ⟨index', i', p0, _, hcy', hc', hne, _, _⟩
+  case inr =>
+    rw [hcy] at hcy'
+    simp only [Cycle.dx.injEq] at hcy'
+    subst hcy'
+    rw [hc] at hc'
+    simp only [Option.some.injEq, Prod.mk.injEq] at hc'
+    obtain ⟨rfl, rfl⟩ := hc'
+    exact absurd hadr hne
+  obtain ⟨index', i', p0, p', ev, _, hcy', hc', _, _, hspec, rfl⟩ := hdel
   rw [hcy] at hcy'
   simp only [Cycle.dx.injEq] at hcy'
   subst hcy'
@@ -288,10 +353,12 @@ theorem pi_i_equals_payload {fp : FdlParams} {g g' : G} (hI : Inv fp g) {a : UIn
 one the outstanding request was addressed to — and to nothing else. -/
 theorem no_cross_talk {fp : FdlParams} {g g' : G} (hI : Inv fp g) {a : UInt8} {t : Telegram}
     (h : gstep fp g (.reply a t) = .ok g') :
-    ∃ index i p, g.m.cycle = .dx index ∧ curSlot g.m.slots index = some (i, p) ∧ p.address = a ∧
-      ∀ j, j ≠ i → g'.m.slots[j]? = g.m.slots[j]? := by
-  obtain ⟨index, i, p, p', ev, _, hcy, hc, hpa, _, hspec, rfl⟩ := reply_form hI h
-  refine ⟨index, i, p, hcy, hc, hpa, ?_⟩
+    ∃ index i p, g.m.cycle = .dx index ∧ curSlot g.m.slots index = some (i, p) ∧
+      (p.address = a ∨ g'.m = g.m) ∧ ∀ j, j ≠ i → g'.m.slots[j]? = g.m.slots[j]? := by
+  rcases reply_cases hI h with hdel | ⟨index, i, p, _, hcy, hc, _, _, rfl⟩
+  case inr => exact ⟨index, i, p, hcy, hc, Or.inr rfl, fun _ _ => rfl⟩
+  obtain ⟨index, i, p, p', ev, _, hcy, hc, hpa, _, hspec, rfl⟩ := hdel
+  refine ⟨index, i, p, hcy, hc, Or.inl hpa, ?_⟩
   intro j hj
   have hi := (curSlot_spec hc).2.2.1
   exact (slot_of_set (q := p') hi (afterReply g.m index i p p' ev) rfl j).2.2.1 hj
@@ -310,6 +377,40 @@ theorem tx_event_is_offline {fp : FdlParams} (hfp : FpOk fp) {g g' : G} (hI : In
       unfold afterDecline; cases nextSlot m1.slots index <;> rfl
     simp only [G.polled, this, Option.some.injEq] at hhe
     subst hhe; rfl
+
+/-- F14 (/repo 954a153): a reply for an address the peripheral at the cycle index no longer has — its
+address was changed by `reset_address()` while the request was in flight — is ignored: master state
+(images, cycle index, events) and the event account are untouched; nothing panics (`never_panics`
+covers histories with `reset_address()` at arbitrary points). -/
+theorem stale_reply_ignored {fp : FdlParams} {g g' : G} (hI : Inv fp g) {a : UInt8} {t : Telegram}
+    (h : gstep fp g (.reply a t) = .ok g')
+    {index i : Nat} {p : Peripheral} (hcy : g.m.cycle = .dx index) (hc : curSlot g.m.slots index = some (i, p))
+    (hne : p.address ≠ a) : g'.m = g.m ∧ g'.produced = g.produced ∧ g'.o = .ignored ∧ g'.out = none := by
+  rcases reply_cases hI h with ⟨index', i', p0, _, _, _, hcy', hc', hpa, _⟩ | ⟨_, _, _, _, _, _, _, _, rfl⟩
+  · rw [hcy] at hcy'
+    simp only [Cycle.dx.injEq] at hcy'
+    subst hcy'
+    rw [hc] at hc'
+    simp only [Option.some.injEq, Prod.mk.injEq] at hc'
+    obtain ⟨rfl, rfl⟩ := hc'
+    exact absurd hpa hne
+  · exact ⟨rfl, rfl, rfl, rfl⟩
+
+/-- `reset_address()` keeps both process images of the slot (and touches no other slot's). -/
+theorem reset_keeps_images {fp : FdlParams} (hfp : FpOk fp) {g g' : G} (hI : Inv fp g) {slot : Nat} {a : UInt8}
+    (h : gstep fp g (.resetAddr slot a) = .ok g') (j : Nat) :
+    slotPiI g'.m j = slotPiI g.m j ∧ slotPiQ g'.m j = slotPiQ g.m j := by
+  constructor
+  · cases hq : decide (slotPiI g'.m j = slotPiI g.m j) with
+    | true => exact of_decide_eq_true hq
+    | false =>
+      obtain ⟨_, _, _, _, _, _, _, hop, _⟩ := pi_i_changes_only hfp hI _ h j (of_decide_eq_false hq)
+      cases hop
+  · cases hq : decide (slotPiQ g'.m j = slotPiQ g.m j) with
+    | true => exact of_decide_eq_true hq
+    | false =>
+      obtain ⟨_, hop, _⟩ := pi_q_never_written hfp hI _ h j (of_decide_eq_false hq)
+      cases hop
 
 /-! ### Non-vacuity -/
 
@@ -351,5 +452,17 @@ def exCheck : Bool :=
   | _ => false
 
 example : exCheck = true := by decide +kernel
+
+/-- The F14 witness (corpus/dp/07): the address is changed while the Data_Exchange request is in flight;
+the reply of the old address is ignored (`pi_i` stays, no event), the history is inside the contract. -/
+def f14Check : Bool :=
+  match grun exFp (G.init exSlots false) (exHistory.dropLast ++ [.resetAddr 1 9]) with
+  | .ok g =>
+    (match gstep exFp g (.reply 7 (.data ⟨2, 7, none, none, .response .slave .dataLow⟩ [0xa5])) with
+     | .ok g' => g'.o == .ignored && slotPiI g'.m 1 == some [0] && g'.m.lastEvents == g.m.lastEvents && g.tainted
+     | _ => false)
+  | _ => false
+
+example : f14Check = true := by decide +kernel
 
 end PV.C04
